@@ -85,14 +85,16 @@ SeparatingRep(hs, i, j) == SumOver(hs, [x \in hs |-> IF (i \in x[1]) # (j \in x[
 JudgeMultiTwin_(e, o, hs) ==
     /\ Check(e, "HarnessOrbit", \A f \in DOMAIN e.F : SameUpToLabels(o.F[f], e.F[f], 2))
     /\ Check(e, "PermutationInvariance", hs = HistSet(o.hist))
-JudgeMultiH_(e, F, h, hs, MP, twin) ==
+JudgeMultiH_(e, F, B, h, hs, MP, twin) ==
     /\ Check(e, "MultiwayIsDefinition", hs = { <<sp, h[sp]>> : sp \in DOMAIN h } /\ Cardinality(hs) = Len(e.hist))
     /\ Check(e, "MultiwaySumsToPairs", SumOver(hs, [x \in hs |-> x[2]]) = Cardinality(MP))
     /\ Check(e, "MultiwayConsistentWithPairwise",
-             \A k \in Earlier(e, "Pair", e.run) : 2 * SeparatingRep(hs, mem[k].i, mem[k].j) <= mem[k].row.sw)
+             \A k \in Earlier(e, "Pair", e.run) :
+                 Blocks(mem[k].F) = B => 2 * SeparatingRep(hs, mem[k].i, mem[k].j) = mem[k].row.sw)
     /\ (IF e.run = 1 /\ twin # {} THEN JudgeMultiTwin_(e, mem[CHOOSE k \in twin : TRUE], hs) ELSE TRUE)
-JudgeMultiP_(e, F, MP) == JudgeMultiH_(e, F, MultiHist_(MP), HistSet(e.hist), MP, Earlier(e, "Multi", 0))
-JudgeMulti(e) == JudgeMultiP_(e, e.F, MultiPairs(e.F))
+JudgeMultiP_(e, F, B, MP) == JudgeMultiH_(e, F, B, MultiHist_(MP), HistSet(e.hist), MP, Earlier(e, "Multi", 0))
+JudgeMultiB_(e, F, B) == JudgeMultiP_(e, F, B, MultiPairs_(F, B))
+JudgeMulti(e) == JudgeMultiB_(e, e.F, Blocks(e.F))
 
 Judge(e) ==
     CASE e.ev = "Pair"      -> JudgePair(e)
